@@ -62,7 +62,7 @@ Proof.
   intros Hnofail Hhold Hnew Hundo Hscope.
   destruct (disc_scope_parts _ _ _ Hscope) as (Hwf & Hbl).
   pose proof (fixed_lib_disc_run h n0 cfg Hnofail Hnew Hundo Hhold
-                (fun b Hb => conj (proj1 (wfb_id h Hwf b Hb)) (conj (proj1 (Hbl b Hb)) (proj2 (wfb_id h Hwf b Hb))))
+                (wfb_id h Hwf)
                 (wfb_uniq h Hwf) (wfb_up h Hwf)
                 (fun b Hb => proj1 (proj2 (Hbl b Hb)))
                 (fun b Hb => proj1 (proj2 (proj2 (Hbl b Hb))))
